@@ -29,6 +29,46 @@ def tvalidate(res, tr, n):
   return bad
 
 
+def kvalidate(res, trk, ncases):
+  """Translated kernel _next_position vs the real kernel, same launch grid (incl. in/out aliasing)."""
+  import kvalid
+
+  import mujoco_warp._src.forward as F
+
+  fi = trk.kernels.get("_next_position")
+  if fi is None:
+    return [{"error": "kernel _next_position did not translate", "detail": trk.errors}]
+  rng = np.random.default_rng(vlib.seed() + 231)
+  cases = []
+  for k in range(ncases):
+    nworld, nj = 2, int(rng.integers(1, 5))
+    jt = rng.integers(0, 4, nj)
+    qadr, dadr, q, v = [], [], 0, 0
+    for t in jt:
+      qadr.append(q)
+      dadr.append(v)
+      q += {0: 7, 1: 4, 2: 1, 3: 1}[int(t)]
+      v += {0: 6, 1: 3, 2: 1, 3: 1}[int(t)]
+    qpos = (rng.normal(0, 1, (nworld, q)) * 10.0 ** rng.uniform(-1, 1)).astype(np.float32)
+    qvel = (rng.normal(0, 1, (nworld, v)) * 10.0 ** rng.uniform(-1, 2.5)).astype(np.float32)
+    if k % 5 == 0:
+      qpos[0] = 0  # zero quaternions
+    if k % 7 == 0:
+      qvel[1] = 0
+    cases.append(
+      dict(
+        kernel=F._next_position, fi=fi, dim=(nworld, nj),
+        args=dict(opt_timestep=np.array([0.01, 0.002], dtype=np.float32)[: 1 + k % 2], jnt_type=jt.astype(np.int32), jnt_qposadr=np.array(qadr, dtype=np.int32),
+                  jnt_dofadr=np.array(dadr, dtype=np.int32), qpos_in=qpos, qvel_in=qvel, qvel_scale_in=float(rng.choice([1.0, 0.5])), qpos_out=qpos),
+        bind=dict(qpos_in="qpos", qpos_out="qpos"), written=["qpos_out"],
+      )
+    )  # fmt: skip
+    res.nontrivial(("kv", k, tuple(int(x) for x in jt)))
+  verdicts = kvalid.run_cases(res, "C23k", "Gen.kforward", cases)
+  res.extra["kernel_validation"] = {"agree": verdicts.count(0), "discarded": verdicts.count(1), "disagree": verdicts.count(2)}
+  return [{"case": i, "jnt_type": cases[i]["args"]["jnt_type"].tolist(), "qpos": cases[i]["args"]["qpos_in"].tolist(), "qvel": cases[i]["args"]["qvel_in"].tolist()} for i, v in enumerate(verdicts) if v == 2]
+
+
 def oracle(res, nmodels, nsteps):
   """Real code: after steps from wild states, qpos quaternions are unit and reported frames are rotations."""
   import mujoco
@@ -90,12 +130,17 @@ def oracle(res, nmodels, nsteps):
 def run(res):
   quick = res.tier == "quick"
   res.rule = "T-validation cases: random float32 inputs per translated function (5% zeros, axis-aligned, unit and unnormalised quaternions), distinct = agreeing non-discarded cases; oracle: distinct random models stepped from wild states"
-  ok, trs, failing = propkit.prove(res, PROPS, gen_names=["math"], required_funcs=FUNCS)
+  ok, trs, failing = propkit.prove(res, PROPS, gen_names=["math", "kforward"], required_funcs=FUNCS)
   tr = trs.get("math")
   tbad = []
   if tr is not None:
     tbad = tvalidate(res, tr, 150 if quick else 1500)
     res.obligation("T-validation: translated math.py functions agree with compiled Warp", not tbad, f"{len(tbad)} disagreements")
+  trk = trs.get("kforward")
+  if trk is not None:
+    kbad = kvalidate(res, trk, 16 if quick else 160)
+    res.obligation("kernel validation: translated _next_position agrees with the real kernel launch", not kbad, f"{len(kbad)} disagreements")
+    tbad = tbad + kbad
   fails = oracle(res, 12 if quick else 120, 5 if quick else 40)
   for f in fails[:3]:
     res.violation("C23:oracle:non-unit-rotation", f"after {f['steps']} steps quaternion norm error {f['quat_norm_err']:.2e}, matrix error {f['mat_err']:.2e}", f)
